@@ -38,9 +38,17 @@ FINISH = dict(
          "ORDER — two or three files per source in both orders (--root-cert through the real command line, also as "
          "--root-cert=FILE), the bad file before the good one, the bad file in another source than the needed root; "
          "the all-fine multi-file cases with a trusted chain must SUCCEED (harness sanity: 'a listed root was not used'). "
-         "SHAPE — a root file that is empty / a directory / a private key only must fail closed; DER, leading text, CRLF "
-         "and two-certificate bundles are only counted (rootfile:<shape>:<trusted|refused>); root_certificates = [] "
+         "SHAPE — a root file that is empty / a directory / a private key only must fail closed; DER, leading text and CRLF "
+         "are only counted (rootfile:<shape>:<trusted|refused>); root_certificates = [] "
          "against an absent key at endpoint and global level. "
+         "BUNDLE (judged; ground truth from the documentation: '--root-cert FILE  Add a root certificate to the trust "
+         "store. This option can be used multiple times', root_certificates = 'the path to root certificates': a listed "
+         "file gives ONE root certificate, its first CERTIFICATE block; the blocks after it are not among 'exactly the root "
+         "certificates given') — files of two and three blocks (unrelated root then root A, A then unrelated, U U2 A, U A U2, "
+         "A U U2, X then A, A then X for a second private CA X fine for the host): a server whose chain validates only "
+         "through a later block must see no request (chainValid=false), one whose chain validates through the first block "
+         "must be served (harness sanity); the two-block files in each of the three sources in both tiers, the others in one "
+         "source each (thorough: all three), beside single-root files, and in two sources at once (counts auditd:bundle:*). "
          "INCLUDE — the [global] root list defined or replaced by included files (manual: the last included file that "
          "defines the option wins; an included empty list replaces too), [global] only in the included file, the endpoint "
          "defined in the included file; the dumped root list is compared with command line ++ endpoint ++ merged global. "
